@@ -124,8 +124,7 @@ EXPORT errno_t _strerror_s_chk(char *dest, rsize_t dmax, errno_t errnum,
 #endif
         strcat_s(dest, dmax, "...");
     } else {
-        invoke_safe_str_constraint_handler("strerror_s: dmax is too small",
-                                           dest, ESLEMIN);
+        handle_error(dest, dmax, "strerror_s: dmax is too small", ESLEMIN);
         return ESLEMIN;
     }
 
